@@ -730,6 +730,17 @@ impl<'p> Harness<'p> {
             return self.on_panic("stabilise", m);
         }
         self.model.process_round(&roots, &events);
+        if std::env::var("VTRACE").is_ok() {
+            for e in &events {
+                self.trace.push(format!("      . {e:?}"));
+            }
+            for n in self.model.nodes.iter().flatten() {
+                self.trace.push(format!(
+                    "      = #{} {:?} valid={} must={} ran={:?} changed={:?} cache={:?} run={:?} chg={:?}",
+                    n.tag, n.kind, n.valid, n.must, n.ran, n.changed, n.cache, n.run, n.chg
+                ));
+            }
+        }
         let info = self.model.info.clone();
         self.classes.bind_reruns += info.bind_reruns;
         self.classes.stale_possible += info.stale_possible;
@@ -809,8 +820,8 @@ impl<'p> Harness<'p> {
             }
         }
         self.model.end_round(&events);
-        self.check_vars_after_round(r, &events);
         self.necessary = self.model.cone(&roots).into_iter().collect();
+        self.check_vars_after_round(r, &events);
         self.wrote_since_stab = false;
         self.removed_since_stab = false;
         self.sub_changed_since_stab.clear();
@@ -1053,7 +1064,7 @@ impl<'p> Harness<'p> {
             if !wrote.contains(&tag) {
                 continue;
             }
-            if self.model.node(tag).must {
+            if self.necessary.contains(&tag) {
                 necessary_written = true;
             }
             let Some(var) = self.vars[vi].var.clone() else { continue };
